@@ -290,7 +290,7 @@ func runSeeds(bin string, fam FamilyPlan, tier string, from uint64, n int, par i
 // ---------------------------------------------------------------------------
 // classification of worker deaths
 
-var repoFrameRe = regexp.MustCompile(`github\.com/markusressel/fan2go/(internal|cmd)[^\s(]*`)
+var repoFrameRe = regexp.MustCompile(`github\.com/markusressel/fan2go/(?:internal|cmd)[^\s]*\(`)
 var goroutineRe = regexp.MustCompile(`(?m)^goroutine \d+ `)
 
 // classifyDeath turns a worker death into a violation signature, or "" when
@@ -328,7 +328,7 @@ func classifyDeath(o *runOut) (sig string, msg string, harness bool) {
 		if strings.Contains(f, "/zverif/") || strings.Contains(f, "internal/simhook") {
 			continue
 		}
-		repoFrames = append(repoFrames, strings.TrimPrefix(f, "github.com/markusressel/fan2go/"))
+		repoFrames = append(repoFrames, strings.TrimSuffix(strings.TrimPrefix(f, "github.com/markusressel/fan2go/"), "("))
 	}
 	if len(repoFrames) == 0 {
 		return "", "harness panic: " + first, true
